@@ -9,7 +9,12 @@ import (
 
 func c23Cases(tier string) []chainCase {
 	var cases []chainCase
-	envs := []EnvCfg{defaultEnv()}
+	// second environment: N1 already has a reward delegator (R1:10), so an edit can keep the delegator addresses
+	// and change only a share
+	withDeleg := defaultEnv()
+	withDeleg.Setup = append([]TxSpec{}, withDeleg.Setup...)
+	withDeleg.Setup[0] = TxSpec{Kind: "node_stake", Signer: "N1", Args: map[string]string{"node": "N1", "value": "3000000", "output": "O1", "chains": "0001", "delegators": "R1:10"}}
+	envs := []EnvCfg{defaultEnv(), withDeleg}
 	type pre struct {
 		name   string
 		blocks []BlockSpec
@@ -35,6 +40,9 @@ func c23Cases(tier string) []chainCase {
 		{"new-output", []string{"value", "3000000", "chains", "0001", "output", "A2"}},
 		{"new-delegators", []string{"value", "3000000", "chains", "0001", "output", "O1", "delegators", "R1:25"}},
 		{"new-output-and-delegators", []string{"value", "4000000", "chains", "0001", "output", "A2", "delegators", "R2:5"}},
+		{"delegator-share-changed", []string{"value", "3000000", "chains", "0001", "output", "O1", "delegators", "R1:100"}},
+		{"delegator-kept", []string{"value", "3000000", "chains", "0001", "output", "O1", "delegators", "R1:10"}},
+		{"delegator-added", []string{"value", "3000000", "chains", "0001", "output", "O1", "delegators", "R1:10+R2:5"}},
 	}
 	signers := []string{"N1", "O1", "A2"}
 	for ei, env := range envs {
@@ -143,7 +151,7 @@ func c23Cases(tier string) []chainCase {
 func init() {
 	register(&Check{ID: "C23", QuickBud: 110 * time.Second, ThorBud: 20 * time.Minute,
 		Run: func(c *ev.Ctx) {
-			c.Rule = "node N1 in 4 pre-states (staked, staked+jailed by missed signatures, waiting to unstake, unstaking) x 8 edit-stake messages (lower / same / higher stake, new chains, new URL, new output address, new reward delegators, both) x 3 signers (operator, current output address, the proposed new output address), and application P1 in 2 pre-states x 5 edits: each executed in a block of the real application next to a reference replica with an empty block; comparing the record in both: address, public key, jailed flag and status never change, stake never decreases, the output address changes only when the current output address signed, the delegators only when the operator signed, and a waiting or unstaking node is not altered at all"
+			c.Rule = "node N1 in 4 pre-states (staked, staked+jailed by missed signatures, waiting to unstake, unstaking) x 11 edit-stake messages (lower / same / higher stake, new chains, new URL, new output address, new reward delegators, both, a changed share of an existing delegator, the same delegators, an added delegator), in an environment without and one with an existing reward delegator, x 3 signers (operator, current output address, the proposed new output address), and application P1 in 2 pre-states x 5 edits: each executed in a block of the real application next to a reference replica with an empty block; comparing the record in both: address, public key, jailed flag and status never change, stake never decreases, the output address changes only when the current output address signed, the delegators only when the operator signed, and a waiting or unstaking node is not altered at all"
 			runChainCases(c, "editstake", c23Cases(c.Tier))
 			getPool().Close()
 		},
